@@ -115,6 +115,8 @@ structure S where
   dead : Bool := false                  -- `cf.link` is a driver that already reported its error (during connect())
   fixAbort : Bool := Gen.C02.abortedTocFetcherCannotFinish   -- constant: an aborted TocFetcher never runs its finished callback
   fixFirst : Bool := Gen.C02.firstPacketCbChecksLink         -- constant: the first-packet callback ignores a packet whose link is gone (D26)
+  fixUpd : Bool := Gen.C02.allUpdatedRequiresConnected        -- constant: the completion test is evaluated only once connected (D28)
+  fixExtCmd : Bool := Gen.C02.extCbChecksCommand              -- constant: the extended-type fetcher checks the command byte (D29)
   cbLate : Bool := false                -- `_check_for_initial_packet_cb` was re-registered by open_link: it now runs AFTER the
                                         -- application's all-packet callbacks (it was first when the constructor registered it)
   fixD21 : Bool := Gen.C02.extFetcherAbortsOnDisconnect   -- constant: the code has repair D21 (from the source)
@@ -247,12 +249,21 @@ def extPacket (d : Dev) (id : Nat) (s : S) : R :=
   let (es, r) := extAll d id s.exts s
   ({ r.1 with exts := es }, r.2)
 
-/-- `_ParamUpdater._new_packet_cb` + `Param._param_updated` for a read reply -/
+/-- `Param._param_updated` for parameter `id` (read reply or unsolicited value-updated notification): the value is
+stored if the id is in the table received so far; completion test: [only once connected, D28] every element of the
+table has a value (`_check_if_all_updated` walks the table) and it was not signalled before -/
+def paramUpdated (id : Nat) (s : S) : R :=
+  if id < s.parToc then
+    let s1 := { s with vals := if s.vals.contains id then s.vals else id :: s.vals }
+    if (!s.fixUpd || s1.connTs) && (List.range s1.parToc).all (fun i => s1.vals.contains i) && !s1.isUpdated then
+      emit .fully { s1 with isUpdated := true }
+    else pureS s1
+  else pureS s
+
+/-- `_ParamUpdater._new_packet_cb` for a read reply: only the reply that matches `_lock_pattern` is used -/
 def valPacket (id : Nat) (s : S) : R :=
   if s.upd.pat = some id then
-    let s1 := if id < s.parToc then { s with vals := if s.vals.contains id then s.vals else id :: s.vals } else s
-    let all := id < s.parToc ∧ (List.range s1.parToc).all (fun i => s1.vals.contains i)
-    let r := if all ∧ ¬ s1.isUpdated then emit .fully { s1 with isUpdated := true } else pureS s1
+    let r := paramUpdated id s
     ({ r.1 with upd := { r.1.upd with pat := none, locked := false } }, r.2)
   else pureS s
 
@@ -391,6 +402,26 @@ def deliverAct (d : Dev) (pos : Pos) (a : Act) (s : S) : R :=
             if ¬ s.fixAbort ∧ completesParToc d s.stage p then paramTocDone d s' else pureS s'
         else deliver d s >>> actNow a
 
+/-! ### extra packets from the device / network during the connection -/
+
+/-- an unsolicited `MISC_VALUE_UPDATED` notification for a parameter, or a duplicated / late read reply -/
+inductive Inj | upd (id : Nat) | dupVal (id : Nat)
+  deriving DecidableEq, Repr, Inhabited
+
+/-- the dispatcher handles the extra packet at once (it does not take the place of an awaited reply) -/
+def injectPkt (d : Dev) (inj : Inj) (s : S) : R :=
+  if ¬ s.link ∨ s.dead then pureS s else
+  (if s.initCb then emit .established { s with st := .conn, initCb := false } else pureS s) >>> fun s =>
+    match inj with
+    | .upd id =>
+        -- `_ParamUpdater._new_packet_cb`, MISC channel: `updated_callback(pk)`; no pattern matches.  Then the
+        -- extended-type fetchers see the packet: the repaired one (D29) checks the command byte; the unrepaired one
+        -- takes it for the answer to its request for this parameter (the extended type is NOT received by that)
+        paramUpdated id s >>> fun s =>
+          if s.fixExtCmd then pureS s
+          else let r := extPacket d id s; ({ r.1 with extGot := s.extGot }, r.2)
+    | .dupVal id => valPacket id s        -- READ channel: ignored unless it matches `_lock_pattern`
+
 /-! ### SyncCrazyflie -/
 
 /-- `SyncCrazyflie`.  An `Event` attribute is two flags: the attribute is not None / the event is set. -/
@@ -445,6 +476,7 @@ def Sys.init : Sys := {}
 inductive Op
   | open (drv : Drv) | deliver | work | err | arm | close | syncOpen (drv : Drv) | syncClose
   | deliverAct (pos : Pos) (a : Act)
+  | inject (inj : Inj)
   deriving DecidableEq, Repr, Inhabited
 
 /-- an operation on the `Crazyflie` object; the wrapper's callbacks see the calls, then a blocked call may resume -/
@@ -460,6 +492,7 @@ def step (d : Dev) (s : Sys) : Op → Sys × List Out
   | .arm => ({ s with c := { s.c with armed := true } }, [])
   | .close => lift s.w (closeLink s.c)
   | .deliverAct pos a => lift s.w (deliverAct d pos a s.c)
+  | .inject inj => lift s.w (injectPkt d inj s.c)
   | .syncOpen f =>
       -- `SyncCrazyflie.open_link` up to the wait
       if s.w.isOpen then (s, [.openAlreadyOpen])
@@ -487,7 +520,7 @@ def run (d : Dev) : Sys → List Op → Sys × List (Op × List Out)
 one user thread (no user call while a SyncCrazyflie call is blocked, except a plain `close_link` from another
 thread), a link is opened only when none is open (or the one that is there is dead), and only a live driver reports
 errors (a driver reports once). -/
-def allowed (s : Sys) : Op → Bool
+def allowed (d : Dev) (s : Sys) : Op → Bool
   | .open _ => (¬ s.c.link ∨ s.c.dead) ∧ ¬ s.w.waitOpen ∧ ¬ s.w.waitClose
   | .syncOpen _ => ((¬ s.c.link ∨ s.c.dead) ∨ s.w.isOpen) ∧ ¬ s.w.waitOpen ∧ ¬ s.w.waitClose
   | .syncClose => ¬ s.w.waitOpen ∧ ¬ s.w.waitClose
@@ -501,9 +534,13 @@ def allowed (s : Sys) : Op → Bool
   -- left-over fetcher duplicates the requests of the next connection - checked directly on the real code by search())
   | .deliverAct .allPkt _ => ¬ (s.c.link ∧ ¬ s.c.dead ∧ s.c.stage = .logReset)
   | .deliverAct .port _ => true
+  -- value-updated notifications and 16-bit read replies exist only in the current protocol generation; a "duplicate"
+  -- that matches the outstanding request IS the reply (`deliver`), a duplicate is a read reply that does not
+  | .inject (.upd _) => d.magic
+  | .inject (.dupVal id) => d.magic ∧ s.c.upd.pat ≠ some id
 
 def usage (d : Dev) : Sys → List Op → Bool
   | _, [] => true
-  | s, o :: os => allowed s o && usage d (step d s o).1 os
+  | s, o :: os => allowed d s o && usage d (step d s o).1 os
 
 end CfVerif.C02
